@@ -46,9 +46,9 @@ func main() {
 		nEnc, nHist, nSteps = 90, 260, 16
 	}
 	encStream(rep, seed, nEnc, mode != "search")
+	reuseProbe(rep, seed*31+5) // before confStream: its case goes into Cases_C12_imp.v
 	confStream(rep, seed, nHist, nSteps, mode != "search", -1)
 	txStream(rep, seed, mode != "search")
-	reuseProbe(rep, seed*31+5)
 	rep.Write()
 }
 
@@ -181,7 +181,7 @@ func confStream(rep *lib.Report, seed int64, nHist, nSteps int, write bool, only
 	}
 	if write && only < 0 {
 		lib.WriteCases("Cases_C12_conf.v", []string{"model.M_Abi", "model.M_CkDesc", "model.M_Confirm", "model.M_ConfirmCorr"}, "conf_case", items, "conf_mismatch")
-		lib.WriteCases("Cases_C12_imp.v", []string{"model.M_Abi", "model.M_CkDesc", "model.M_Confirm", "model.M_ConfirmCorr"}, "imp_case", imps, "imp_mismatch")
+		lib.WriteCases("Cases_C12_imp.v", []string{"model.M_Abi", "model.M_CkDesc", "model.M_Confirm", "model.M_ConfirmCorr"}, "imp_case", append(probeItems, imps...), "imp_mismatch")
 	}
 }
 
@@ -204,7 +204,14 @@ func replay() {
 	}
 	_ = json.Unmarshal(doc.Replay, &ref)
 	rep := lib.NewReport("C12")
+	var pr struct {
+		Probe string `json:"probe"`
+		Seed  int64  `json:"seed"`
+	}
+	_ = json.Unmarshal(doc.Replay, &pr)
 	switch {
+	case pr.Probe != "":
+		reuseProbe(rep, pr.Seed)
 	case ref.TxCase != "":
 		txStream(rep, doc.Seed, false)
 	case ref.History != nil:
